@@ -442,7 +442,7 @@ class Slicer:
                     out.add("aggr:%s::%s" % (s[1], s[2]))
         return out
 
-    def expand(self, e, depth=8):
+    def expand(self, e, depth=40):
         """substitute named non-parameter locals that have exactly one definition by that definition"""
         if depth <= 0 or not isinstance(e, tuple) or not e or not isinstance(e[0], str):
             return e
